@@ -666,12 +666,12 @@ def install():
 
     orig_unbox = Conn._unbox
 
-    def c_unbox(self, package):
+    def c_unbox(self, package, *more):
         r = active(self)
         if r is None:
-            return orig_unbox(self, package)
+            return orig_unbox(self, package, *more)
         top = caller_name() == "_dispatch_request"
-        res = orig_unbox(self, package)
+        res = orig_unbox(self, package, *more)
         if top and r.reqs:
             from rpyc.core import brine
             if not brine.dumpable(res) and type(res) is not tuple:
@@ -761,6 +761,13 @@ def install():
             while f is not None and f.f_code.co_name in ("async_request", "sync_request"):
                 f = f.f_back
             who = f.f_code.co_name if f is not None else "?"
+            g, depth = f, 0
+            while g is not None and depth < 40:
+                if g.f_code.co_name in ("_box_exc", "format_exception"):
+                    # Python 3.12 computes "did you mean" suggestions while formatting an AttributeError's traceback:
+                    # `dir(obj)` of a proxy asks the peer, from inside vinegar.dump (C09's ground, not modelled here)
+                    raise Unobservable("callback to the peer while an exception's traceback is being formatted")
+                g, depth = g.f_back, depth + 1
             if who not in ("_netref_factory", "_handle_instancecheck", "_handle_inspect", "close"):
                 r.callback(handler, args)
         return orig_async(self, handler, args, callback)
